@@ -128,6 +128,7 @@ impl<'a> Sink<'a> {
                     Op::Crash { cmp: 1, .. } => true,
                     Op::Crash { cmp: 0, op, .. } => matches!(**op, Op::ChangePriorityBy(..) | Op::PopIf(..) | Op::Extend { .. } | Op::FromIter { .. }),
                     Op::Crash { cmp: 3, op, .. } => matches!(**op, Op::CloneSwap | Op::CloneFrom(..)),
+                    Op::Crash { cmp: 4, op, .. } => matches!(**op, Op::Clear),
                     _ => false,
                 };
                 // after an injected fault the white-box state is part of the observation (C10): read it through the hook
@@ -881,10 +882,17 @@ pub fn crash_stream<H: HX>(sink: &mut Sink, rng: &mut Rng, kinds: &[Kind], ncase
         let n0 = *r.pick(&[0u64, 1, 2, 3, 5, 8, 12, 20, 40]);
         let xs0: Vec<E> = (0..n0).map(|k| (k, 0, gen_prio(&mut r, pf.prio))).collect();
         let nprefix = r.below(6);
+        // a third of the starting states are SPARSE: a queue created with a generous capacity and filled by pushes (so that
+        // `len` is far below `capacity`, as after growing and shrinking); the others are exactly as large as their contents
+        let first: Vec<Op> = if r.chance(1, 3) {
+            vec![Op::Fresh(1, 64 + 8 * n0), Op::Extend { lo: 0, hi: None, xs: xs0.clone() }]
+        } else {
+            vec![Op::FromVec(xs0.clone())]
+        };
         let prefix: Vec<Op> = {
             let mut q: AnyQ<H> = AnyQ::new(kind);
-            let _ = std::panic::catch_unwind(AssertUnwindSafe(|| apply(&mut q, &Op::FromVec(xs0.clone()), Lookup::Owned)));
-            let mut v = vec![Op::FromVec(xs0.clone())];
+            for op in &first { let _ = std::panic::catch_unwind(AssertUnwindSafe(|| apply(&mut q, op, Lookup::Owned))); }
+            let mut v = first.clone();
             for _ in 0..nprefix {
                 let op = gen_op(&mut r, &q, &pf);
                 if matches!(op, Op::IterMut { forget: true, .. } | Op::Drain { forget: true, .. }) { continue; }
@@ -1023,9 +1031,10 @@ pub fn crash_mirror_stream<H: HX>(sink: &mut Sink, rng: &mut Rng, kinds: &[Kind]
         let n0 = *r.pick(&[0u64, 1, 2, 3, 5, 8, 12, 20, 40]);
         let xs0: Vec<E> = (0..n0).map(|k| (k, 0, gen_prio(&mut r, pf.prio))).collect();
         // build the prefix once (quietly) to learn the state, then replay it per fault point
-        let mut prefix: Vec<Op> = vec![Op::FromVec(xs0)];
+        // (a third of the starting states are sparse: created with a generous capacity and filled by pushes)
+        let mut prefix: Vec<Op> = if r.chance(1, 3) { vec![Op::Fresh(1, 64 + 8 * n0), Op::Extend { lo: 0, hi: None, xs: xs0 }] } else { vec![Op::FromVec(xs0)] };
         let mut q0: AnyQ<H> = AnyQ::new(kind);
-        let _ = catch_unwind(AssertUnwindSafe(|| apply(&mut q0, &prefix[0], Lookup::Owned)));
+        for p in &prefix { let _ = catch_unwind(AssertUnwindSafe(|| apply(&mut q0, p, Lookup::Owned))); }
         for _ in 0..r.below(6) {
             let op = gen_op(&mut r, &q0, &pf);
             if matches!(op, Op::IterMut { forget: true, .. } | Op::Drain { forget: true, .. } | Op::Convert) { continue; }
@@ -1052,6 +1061,7 @@ pub fn crash_mirror_stream<H: HX>(sink: &mut Sink, rng: &mut Rng, kinds: &[Kind]
             Op::Extend { lo: ns, hi: Some(ns), xs: small.clone() },
             Op::FromVec(big.clone()), Op::FromIter { lo: nb, hi: Some(nb), xs: big.clone() }, Op::Append(0, small.clone()), Op::Append(300, big.clone()),
             Op::CloneFrom(r.below(len + 1), small.clone()), Op::CloneFrom(len / 2, big.clone()), Op::CloneFrom(0, vec![]), Op::CloneSwap,
+            Op::Clear,
         ];
         if pq {
             cands.extend([Op::Pop, Op::PopIf(0, w, true), Op::PopIf(0, w, false)]);
@@ -1059,13 +1069,14 @@ pub fn crash_mirror_stream<H: HX>(sink: &mut Sink, rng: &mut Rng, kinds: &[Kind]
             cands.extend([Op::PopMin, Op::PopMax, Op::PeekMax, Op::PopIf(1, w, true), Op::PopIf(1, w, false), Op::PopIf(2, w, true), Op::PopIf(2, w, false)]);
         }
         let op = r.pick(&cands).clone();
-        let (kc, cbc, clc) = {
+        let (kc, cbc, clc, drc) = {
             let mut q = q0.clone_q();
             let c0 = cmp_count();
             let b0 = CBCOUNT.with(|c| c.get());
             let l0 = CLCOUNT.with(|c| c.get());
+            let d0 = DRCOUNT.with(|c| c.get());
             let _ = catch_unwind(AssertUnwindSafe(|| apply(&mut q, &op, Lookup::Owned)));
-            (cmp_count() - c0, CBCOUNT.with(|c| c.get()) - b0, CLCOUNT.with(|c| c.get()) - l0)
+            (cmp_count() - c0, CBCOUNT.with(|c| c.get()) - b0, CLCOUNT.with(|c| c.get()) - l0, DRCOUNT.with(|c| c.get()) - d0)
         };
         drop(q0);
         // fault points: (fuse kind, ordinal) — the k-th comparison, and for the operations whose callbacks the model
@@ -1080,6 +1091,11 @@ pub fn crash_mirror_stream<H: HX>(sink: &mut Sink, rng: &mut Rng, kinds: &[Kind]
         if matches!(op, Op::CloneSwap | Op::CloneFrom(..)) {
             ks = (1..=clc.min(max_k)).map(|k| (3u8, k)).collect();
             if clc > max_k { ks.push((3, clc)); ks.push((3, r.range(max_k, clc))); }
+        }
+        // a `Drop` of a stored item or priority panics inside `clear()` (the queue must be empty and usable afterwards: C16, F9)
+        if matches!(op, Op::Clear) {
+            ks = (1..=drc.min(max_k)).map(|k| (4u8, k)).collect();
+            if drc > max_k { ks.push((4, drc)); ks.push((4, r.range(max_k, drc))); }
         }
         if cont > 0 && !ks.is_empty() {
             // post-crash histories: one or two fault points per case, then the surviving queue goes on being used
